@@ -35,6 +35,11 @@ import (
 //	[.., +nErrCompose)    errshapes/compose  IgnoreErrors with Retry / Recoverer in every order, two IgnoreErrors layers
 //	[.., +nErrEnum)       errshapes/chain  the 689 enumerated chains that contain IgnoreErrors, with such errors
 //	[.., +nErrNilCause)   errshapes/nil-cause  (0 cases unless genNilCause) errors of a Cause()-capable type without a cause
+//	[.., +nMetaCorr)      in-meta/CorrelationID  CorrelationID alone / with Retry, Recoverer, a second CorrelationID; the handler and a user
+//	                                       middleware set / change / remove the consumed message's correlation id during the call (inmeta.go)
+//	[.., +nMetaSingle)    in-meta/<kind>  each simple middleware alone / with Retry / with such a user middleware
+//	[.., +nMetaEnum)      in-meta/chain  the 689 enumerated chains that contain CorrelationID, 0..2 user middlewares
+//	[.., +nMetaRandom)    in-meta/random  chains with repetition (several CorrelationID layers), up to two Retry layers, 0..2 user middlewares
 const (
 	chainsPerCase  = 8
 	singleKinds    = 8
@@ -57,6 +62,10 @@ type layout struct {
 
 	nErrSingle, nErrCompose, nErrEnum, nErrNilCause int
 	errScriptsCompose, errScriptsChain              int
+
+	nMetaCorr, nMetaSingle, nMetaEnum, nMetaRandom       int
+	metaPerKind                                          int
+	metaScriptsCorr, metaScriptsSingle, metaScriptsChain int
 }
 
 func layoutFor(tier string) layout {
@@ -88,7 +97,16 @@ func layoutFor(tier string) layout {
 		nErrNilCause:      nilCauseCases(tier),
 		errScriptsCompose: vlib.TierN(tier, 4, 20),
 		errScriptsChain:   vlib.TierN(tier, 4, 60),
+
+		nMetaCorr:         vlib.TierN(tier, 8, 240),
+		nMetaEnum:         metaEnumBlocks(),
+		nMetaRandom:       vlib.TierN(tier, 96, 8000),
+		metaPerKind:       vlib.TierN(tier, 2, 20),
+		metaScriptsCorr:   vlib.TierN(tier, 6, 20),
+		metaScriptsSingle: vlib.TierN(tier, 6, 20),
+		metaScriptsChain:  vlib.TierN(tier, 4, 60),
 	}
+	l.nMetaSingle = singleKinds * l.metaPerKind
 	l.nSingle = singleKinds * l.singlePerKind
 	l.nCtxSingle = singleKinds * l.ctxPerKind
 	l.nValSingle = singleKinds * l.valPerKind
@@ -99,7 +117,8 @@ func layoutFor(tier string) layout {
 func (l layout) total() int {
 	return l.nSingle + l.nEnum + l.nRandom + l.nDelay + l.nThrottle + l.nArrivals + l.nCtxSingle + l.nCtxEnum + l.nCtxRandom +
 		l.nValSingle + l.nValEnum + l.nConcSingle + l.nConcChain +
-		l.nErrSingle + l.nErrCompose + l.nErrEnum + l.nErrNilCause
+		l.nErrSingle + l.nErrCompose + l.nErrEnum + l.nErrNilCause +
+		l.nMetaCorr + l.nMetaSingle + l.nMetaEnum + l.nMetaRandom
 }
 
 func init() {
@@ -155,6 +174,19 @@ func init() {
 			"errshapes/IgnoreErrors: IgnoreErrors alone, 60 scripts per case; errshapes/compose: [I], Retry/Recoverer/IgnoreErrors in all orders (2 and 3 layers), [I>I], [Retry>I>I], [Retry>I>Retry], 4 (quick) / 20 (thorough) scripts each per case; " +
 			"errshapes/chain: the 689 enumerated chains that contain IgnoreErrors, 4 (quick) / 60 (thorough) scripts each. Judged by the chain oracle: listed -> success with the outputs, everything else -> the identical error value (ignore-errors / error-identity), Retry's attempt count (retry-attempts). " +
 			"Counters errshape_differs_from_{unwrap_walk,errors_is,outer_text,substring} count (IgnoreErrors layer, error) pairs on which a neighbouring rule would decide differently. An errshapes case is non-trivial when an effect was exercised and a wrapped / near-listed error was generated. " +
+			"in-meta classes (the received message changes during the call): the same chain oracle, but code inside the middlewares changes the consumed message's metadata while the chain runs. " +
+			"Each handler call (88%) does one action before or after it produces its outputs: assign (middleware.SetCorrelationID(new id, msg), the documented call for the place where a message enters the system: sets the id unless there is one), " +
+			"set (rewrites the id), clear (key present, empty), remove (key deleted), replace-map (msg.Metadata = a new map with all entries copied and a new id), other-add / other-change / other-remove (metadata that is not the correlation id); " +
+			"35% of the non-panicking calls 'produce' by copying the id the consumed message carries at that moment onto their outputs themselves (such an output has an id of its own from then on and must not be overwritten); actions are also done right before a panic and on every attempt under Retry, each with an id of its own. " +
+			"UserMW layers (a harness-written middleware) do one action before the inner call (assign, set, clear, remove, replace-map, other-add) and/or one after it returned (restore the id seen on entry, set, clear, remove, assign, other-change; 40% deferred, i.e. also when the inner call panicked). " +
+			"Messages arrive without an id (40%), with the key present but empty (10%) or with an id (50%); outputs carry an id of their own, the input's, an empty one or none, as in all chain classes. " +
+			"in-meta/CorrelationID: [C], [Retry>C], [C>Retry], [UserMW>C], [C>UserMW], all six orders of C, Retry, UserMW, [C>Recoverer], [Recoverer>C], [C>Recoverer>UserMW], [C>UserMW>Recoverer], [C>C], [C>UserMW>C], [C>Retry>C], 6 (quick) / 20 (thorough) scripts each per case; " +
+			"in-meta/<kind>: each simple middleware k in the eight shapes of ctx-replace/<kind>, 6 (quick) / 20 (thorough) scripts each; in-meta/chain: the 689 enumerated chains that contain CorrelationID, 4 (quick) / 60 (thorough) scripts each, every script with its own placement of 0..2 UserMW layers; " +
+			"in-meta/random: chains with repetition (40% CorrelationID per slot), 0..2 Retry layers, 0..2 UserMW layers. " +
+			"The model carries the consumed message's metadata through the chain and judges: every output that lacks an id when a CorrelationID layer gets it has, after the chain, the id the consumed message carried when that layer's inner call returned (none when it carried none then), outputs with an id keep it (correlation-id); " +
+			"after the chain the consumed message's metadata is exactly what the handler / UserMW layers left plus the delay keys of DelayOnError (input-mutated, delay-value, delay-untouched); outputs, error, attempt count, ack, context as in all chain classes. " +
+			"Counters inmeta_corr_layer_id_changed_during_call (CorrelationID layers whose message's id differed between entry and return of the inner call), inmeta_corr_copied_id_set_during_call (outputs that got an id that was put on the message during the call), " +
+			"inmeta_corr_id_removed_during_call_not_copied, inmeta_handler_<action>_<before|after>, inmeta_handler_stamped_output, inmeta_user_<pre|post>_<action>. An in-meta case is non-trivial when an effect was exercised and at least one metadata action was made. " +
 			"A case is non-trivial when at least one documented effect was exercised (id copied, panic recovered, error ignored, ack-at-start seen, deadline seen, delay applied, retry made, rate wait seen); " +
 			"distinct = distinct (chains, parameters, script shapes, observed results) hashes.",
 		Assumptions: []string{
@@ -169,6 +201,10 @@ func init() {
 				"handlers that cancel their own context and leave it on the message are not generated; handlers in these classes never wait for the Timeout deadline (all Timeouts >= 1 min)",
 			"outputs are compared by pointer identity and order, errors by identity (==; values of non-comparable dynamic types by type and deep equality); nil vs. empty output slices are not distinguished",
 			"values classes: matching against an IgnoreErrors list is by the text of the pkg/errors Cause for the unusual error types too (their texts are fixed per type); %w / errors.Join wrappers are only generated around errors that are never listed, except a Join of exactly one listed error (it has the listed text and is the listed error for errors.Is, so both readings agree); errors whose Error method panics are not generated",
+			"in-meta classes: 'the correlation id' that CorrelationID copies is the id the consumed message carries when the inner call has returned. Reading of the godoc: 'CorrelationID adds correlation ID to all messages produced by the handler. ID is based on ID from message received by handler. " +
+				"To make CorrelationID working correctly, SetCorrelationID must be called to first message entering the system' and 'SetCorrelationID should be called when the message enters the system': the code that calls SetCorrelationID on a message entering the system is a handler (or a middleware in front of it) that has received a message without an id, " +
+				"i.e. it runs inside the CorrelationID middleware, which the router wraps around every handler; the outputs exist only when that code has returned, and the id of 'the message received by the handler' at that moment is the one it carries then. The unchanged source reads the id after h(message) in every composition generated (checked: all in-meta classes are silent on it). " +
+				"The same reading decides the rewritten and the removed id: the outputs get the id the message carries at return (the new one; none when it was removed or cleared), as the unchanged source does; metadata actions never touch the delay keys, never set msg.Metadata to nil, and are made by the goroutine that runs the chain (no concurrent writers)",
 			"concurrent classes: the calls in flight never share a message; the circuit breaker never trips (ReadyToTrip=never); all Timeouts >= 1 min and no handler waits for a deadline; no UserMW layers / context replacement",
 		},
 		// concurrent classes: two calls in flight of one wrapped handler share nothing but the middleware itself; a race
@@ -244,5 +280,21 @@ func run(e *vlib.Env) vlib.Result {
 	if i < l.nErrEnum {
 		return runErrEnum(e, i, l.errScriptsChain)
 	}
-	return runErrNilCause(e)
+	i -= l.nErrEnum
+	if i < l.nErrNilCause {
+		return runErrNilCause(e)
+	}
+	i -= l.nErrNilCause
+	if i < l.nMetaCorr {
+		return runMetaCorr(e, l.metaScriptsCorr)
+	}
+	i -= l.nMetaCorr
+	if i < l.nMetaSingle {
+		return runMetaSingle(e, kind(i/l.metaPerKind), l.metaScriptsSingle)
+	}
+	i -= l.nMetaSingle
+	if i < l.nMetaEnum {
+		return runMetaEnum(e, i, l.metaScriptsChain)
+	}
+	return runMetaRandom(e)
 }
